@@ -311,6 +311,10 @@ class Engine:
         for m in self.monitors.values():
             m.on_field_write(I, ref, name, fr)
 
+    def on_field_read(self, I, ref, name, fr):
+        for m in self.monitors.values():
+            m.on_field_read(I, ref, name, fr)
+
     def is_held(self, I, lock):
         return I.st.held.get(self.lock_key(lock), 0) > 0
 
